@@ -405,7 +405,20 @@ def _r4(repo, L, idx, proc: Func, roles):
             return bool(ds) and all(from_regex(d, depth + 1) for d in ds)
         return False
 
-    if not from_regex(lp.iter):
+    if not from_regex(lp.iter) and isinstance(lp.iter, ast.Name):
+        # a second source of runs guarded by a test on the buffer (fast path): decided by evaluating the guard and the
+        # alternative on probe buffers — it may only be taken for buffers made of ACGT/acgt alone, and must then give the
+        # single span the pattern would give
+        verdict = _fast_path_verdict(proc, lp.iter.id, from_regex)
+        if verdict is True:
+            L.ok("R2", proc.short + ":runs-from-regex", "the non-regex source of runs is only taken for all-ACGT buffers and yields the span the pattern would", proc.loc(lp))
+        elif isinstance(verdict, tuple):
+            probe, why_ = verdict
+            L.fail("R2", proc.short + ":runs-from-regex", f"for the buffer {probe!r} {why_}: non-ACGT symbols (IUPAC codes, '-', '*') are absorbed into a fragment instead of becoming a gap", proc.loc(lp), witness={"buffer": repr(probe)})
+            return
+        else:
+            raise AnalysisError(f"{proc.short}: runs are taken from a source other than the ACGT pattern under a condition the rule cannot evaluate")
+    elif not from_regex(lp.iter):
         srcs = [norm(lp.iter)[:50]]
         if isinstance(lp.iter, ast.Name):
             from ..util import local_defs
@@ -518,6 +531,94 @@ def _r4(repo, L, idx, proc: Func, roles):
 # ------------------------------------------------------------------------------ R5
 
 
+def _fast_path_verdict(proc: Func, var: str, from_regex):
+    """The loop variable `var` has several definitions, some not from the run pattern.  -> True | (probe, reason) | None"""
+    from ..fold import Folder, NotConstant
+    from ..util import ancestors as _anc
+
+    defs = [n for n in walk_shallow(proc.node) if isinstance(n, ast.Assign) and len(n.targets) == 1 and is_name(n.targets[0], var)]
+    alts = [n for n in defs if not from_regex(n.value)]
+    if not alts or len(alts) == len(defs):
+        return None
+    # the buffer variable: argument of the regex call
+    buf = None
+    for c in walk_shallow(proc.node):
+        if isinstance(c, ast.Call) and (dotted(c.func) or "") in ("re.finditer", "re.findall") and len(c.args) >= 2 and isinstance(c.args[1], ast.Name):
+            buf = c.args[1].id
+    if buf is None:
+        return None
+    probes = [b"", b"A", b"ACGT", b"acgtACGTacgt", b"ACGTRACGT", b"AC-GT", b"*", b"R", b"ACGTN", b"nACGT", b"AC GT", b"ACGT\r", b"ACGTY"]
+    acgt = set(b"ACGTacgt")
+    for alt in alts:
+        guards = []
+        cur = alt
+        for a in _anc(alt):
+            if isinstance(a, ast.If):
+                side = any(cur is s_ or contains(s_, cur) for s_ in a.body)
+                guards.append((a.test, side))
+            if isinstance(a, ast.FunctionDef):
+                break
+            cur = a
+        if not guards:
+            return None
+        for pb in probes:
+            try:
+                taken = all(bool(Folder({buf: pb}).fold(t)) == side for t, side in guards)
+                if not taken:
+                    continue
+                runs = Folder({buf: pb}).fold(alt.value)
+            except (NotConstant, Exception):
+                return None
+            if not set(pb) <= acgt:
+                return (pb, f"the alternative source is taken although the buffer holds a symbol outside ACGT/acgt and gives the runs {runs}")
+            want = [(0, len(pb))] if pb else []
+            got = [tuple(x) for x in runs] if isinstance(runs, list | tuple) else runs
+            if got != want:
+                return (pb, f"the alternative source gives {got}, the pattern gives {want}")
+    return True
+
+
+def _header_time_duplicate_test(idx: Func, roles):
+    """-> 'complete' | 'pending-missed' | None"""
+    ixd, nmv = roles["index"], roles["name"]
+    try:
+        loop, hdr_if = _line_loop(idx)
+    except AnalysisError:
+        return None
+    # paths of the header arm that rebind the current name from a new-name local
+    tst = hdr_if.test
+    arm = hdr_if.body
+    rebinds = [n for n in walk_shallow(hdr_if) if isinstance(n, ast.Assign) and any(is_name(t, nmv) for t in n.targets) and isinstance(n.value, ast.Name)]
+    if len(rebinds) != 1:
+        return None
+    newv = rebinds[0].value.id
+    verdicts = set()
+    for p in PathEnum((0, 1), exc_edges=False).block(arm):
+        if p.status == "raise":
+            continue
+        if not any(e.kind == "stmt" and e.node is rebinds[0] for e in p.events):
+            continue
+        in_index = pending = False
+        for e in p.events:
+            if e.kind == "stmt" and e.node is rebinds[0]:
+                break
+            if e.kind == "cond":
+                for t, v in cond_facts(e.node, e.val):
+                    tt = norm(t).replace(" ", "")
+                    if tt in (f"{newv}in{ixd}", f"{ixd}.get({newv})") and v is False:
+                        in_index = True
+                    if tt in (f"{newv}=={nmv}", f"{nmv}=={newv}") and v is False:
+                        pending = True
+                    if tt in (f"{newv}!={nmv}", f"{nmv}!={newv}") and v is True:
+                        pending = True
+        verdicts.add("complete" if in_index and pending else "pending-missed" if in_index else "none")
+    if verdicts == {"complete"}:
+        return "complete"
+    if "pending-missed" in verdicts and "none" not in verdicts:
+        return "pending-missed"
+    return None
+
+
 def _r5(repo, L, idx, store: Func, roles):
     ixd, nmv = roles["index"], roles["name"]
     ok, why = True, ""
@@ -536,6 +637,16 @@ def _r5(repo, L, idx, store: Func, roles):
                         tested = True
         if not tested:
             ok, why = False, "an index entry is stored on a path that did not test for an existing entry of the same name: a duplicate record silently replaces the first"
+    if not ok and n_store > 0:
+        # the test may be made when the NEXT header is read (fail fast): then the new name has to be compared with every stored
+        # name AND with the record just finished, which is not in the index yet
+        hdr = _header_time_duplicate_test(idx, roles)
+        if hdr == "complete":
+            L.ok("R5", store.short + ":duplicate", "duplicate names rejected when the header is read (stored names and the pending record)", store.loc())
+            return
+        if hdr == "pending-missed":
+            L.fail("R5", store.short + ":duplicate", "the duplicate test made at header time compares the new name with the stored entries only: the record just finished is not stored yet, so a record with the same name as the one directly before it silently replaces it", store.loc(), witness={"file": ">a\\nACGT\\n>a\\nTTTT\\n"})
+            return
     dup_raise = any(p.status == "raise" and any(e.kind == "cond" and ixd in norm(e.node) and e.val for e in p.events) for p in paths(store, (0, 1), exc_edges=False))
     if not dup_raise:
         ok, why = False, why or "no raising path for a duplicate record name"
@@ -572,21 +683,37 @@ def _r6(repo, L, idx, store: Func, roles):
     ok = roles["length"] in consumed and roles["offset"] in tell and roles["line_end"] is not None and a3 in (f"{roles['rpl']}+{roles['line_end']}", f"{roles['line_end']}+{roles['rpl']}")
     why = f"index entry built as FastaInfo({', '.join(norm(x) for x in c0.args)}); expected (residue count, offset from tell() after the header, residues per line, residues per line + terminator width)"
     L.check(ok, "R6", store.short + ":entry", "(length, offset, linebases, linebases + terminator)", why, store.loc())
-    # the terminator width is detected from the header line (1 or 2 bytes)
-    le = [n for n in walk_shallow(idx.node) if isinstance(n, ast.Assign) and roles["line_end"] and is_name(n.targets[0], roles["line_end"]) and not (isinstance(n.value, ast.Constant) and n.value.value is None)]
-    okle = False
-    if len(le) == 1 and isinstance(le[0].value, ast.IfExp):
-        tv, fv_ = try_fold(le[0].value.body, default=None), try_fold(le[0].value.orelse, default=None)
-        tt = le[0].value.test
-        negt = False
-        while isinstance(tt, ast.UnaryOp) and isinstance(tt.op, ast.Not):
-            tt, negt = tt.operand, not negt
-        if isinstance(tt, ast.Compare) and len(tt.ops) == 1 and isinstance(tt.ops[0], ast.Eq | ast.NotEq) and 13 in (try_fold(tt.left, default=None), try_fold(tt.comparators[0], default=None)):
-            if isinstance(tt.ops[0], ast.NotEq):
-                negt = not negt
-            cr_val, other = (fv_, tv) if negt else (tv, fv_)
-            okle = cr_val == 2 and other == 1
-    L.check(okle, "R6", idx.short + ":terminator-width", "2 for CRLF, else 1", f"terminator width computed as '{norm(le[0].value) if le else None}'", idx.loc())
+    # the terminator width is detected from the header line (1 or 2 bytes): decided by constant propagation through the
+    # header arm of the line loop on probe header lines
+    from ..finite import UNKNOWN as _UNK, Opaque as _Opq, run_paths as _run_paths
+
+    le_var = roles["line_end"]
+    if not le_var:
+        raise AnalysisError("terminator width variable not identified")
+    loop_, hdr_if_ = _line_loop(idx)
+    t_arm, f_arm = list(hdr_if_.body), list(hdr_if_.orelse)
+    if not f_arm and t_arm and isinstance(t_arm[-1], ast.Continue):
+        t_arm, f_arm = t_arm[:-1], loop_.body[loop_.body.index(hdr_if_) + 1:]
+    tst_ = hdr_if_.test
+    neg_ = False
+    while isinstance(tst_, ast.UnaryOp) and isinstance(tst_.op, ast.Not):
+        tst_, neg_ = tst_.operand, not neg_
+    if isinstance(tst_, ast.Compare) and len(tst_.ops) == 1 and isinstance(tst_.ops[0], ast.NotEq):
+        neg_ = not neg_
+    hdr_arm = f_arm if neg_ else t_arm
+    lv_ = loop_.target.id
+    probes_ = [(b">a\n", 1), (b">a\r\n", 2), (b">a desc\n", 1), (b">a \n", 1), (b">a\t\r\n", 2), (b">a d \r\n", 2), (b"> a\n", 1)]
+    okle, why_le = True, ""
+    for pb, want_ in probes_:
+        env_ = {lv_: pb, roles["name"]: "", "name": ""}
+        res_ = [r for r in _run_paths(hdr_arm, env_, loop_iters=(0,)) if r["path"].status != "raise"]
+        vals_ = {repr(r["env"].get(le_var)) for r in res_}
+        if not res_ or any(r["env"].get(le_var) is _UNK or isinstance(r["env"].get(le_var), _Opq) or r["env"].get(le_var) is None for r in res_):
+            raise AnalysisError(f"{idx.short}: terminator width '{le_var}' is not a foldable function of the header line ({sorted(vals_)})")
+        if vals_ != {repr(want_)}:
+            okle, why_le = False, f"for the header line {pb!r} the terminator width is {sorted(vals_)}, expected {want_}: the fifth .fai column (bytes per line) is wrong and random access seeks to the wrong byte"
+            break
+    L.check(okle, "R6", idx.short + ":terminator-width", "2 for CRLF, else 1 (7 probe header lines)", why_le, idx.loc())
     # fai_row
     fr = info.methods.get("fai_row")
     ok, why = False, "fai_row structure not recognised"
